@@ -144,7 +144,7 @@ class C20(Prop):
             "duplicate, compare, minify, edits (add/detach/replace/insert/set), JSON pointer get/find, patch generate/apply, merge patch "
             "apply/generate, sort, delete; never cJSON_GetErrorPtr / cJSON_InitHooks / setlocale. A driver built with gcc -fsanitize=thread "
             "(library and driver instrumented) runs every program alone (reference digest of all results) and then all of them concurrently "
-            "behind a barrier for 3 rounds (the first one before anything else has used the library in the process), and finally 2-4 times in ONE thread with the calls of all programs interleaved in a drawn order (schedule owned by the harness, call granularity). In half of the cases custom allocation hooks (thread-safe, no realloc) are installed before the threads start, and a thread's k-th request inside core API calls may be refused (the solo run refuses the same request); in a third of those also inside utility calls, with no verdict when a program does not survive that alone (tried in a child process). Texts come from a fixed pool and from the shared document generator (all escape kinds, surrogate pairs, long strings, BOM). Oracle: no ThreadSanitizer report other than a data race whose every access lies in the documented global error position "
+            "behind a barrier for 3 rounds (the first one before anything else has used the library in the process), and finally 2-4 times in ONE thread with the calls of all programs interleaved in a drawn order (schedule owned by the harness, call granularity). In half of the cases custom allocation hooks (thread-safe, no realloc) are installed before the threads start, and a thread's k-th request inside core API calls may be refused (the solo run refuses the same request); in a third of those also inside utility calls, with no verdict when a program does not survive that alone (tried in a child process). Texts come from a fixed pool (incl. texts cut in the middle of a token) and from the shared document generator (all escape kinds, surrogate pairs, long strings, BOM); in half of the cases the threads' text buffers are adjacent slices of one block, each text flush against the end of its slice, each thread writing the first byte of its own slice. Oracle: no ThreadSanitizer report other than a data race whose every access lies in the documented global error position "
             "(located by behaviour: the words of the data segment that track the error offset of two failing probe parses; no symbol name is used) and every concurrent digest equals the solo digest. non-trivial = >= 2 threads that each "
             "execute a parse and a print of a tree containing numbers; distinct by case hash")
     ASSUMPTIONS = ["the harness does not own the scheduler: race detection is happens-before based (both accesses must be executed, not interleaved), "
